@@ -401,9 +401,12 @@ func c02HandOver(run *core.Run, pfx, what string, r *c02Runner) {
 		for _, d := range r.recDefers {
 			f := c02DeferredFn(d)
 			run.Fn(core.FuncName(f))
-			_, arm := core.EdgesOf(f, recoveredNil)
+			// the panic arm of the deferred function: `!finished` (completion flag) and/or `recover() != nil`;
+			// that the test cannot miss a panic is the matter of ...-panic-detection-value-independent
+			pt := c02PanicTestOf(d)
+			arm := pt.arm()
 			if len(arm) == 0 {
-				o.Fail(p.Pos(f.Pos()), "%s never tests recover() != nil", core.FuncName(f))
+				o.Fail(p.Pos(f.Pos()), "%s never tests whether the handler panicked", core.FuncName(f))
 				continue
 			}
 			var from []core.At
@@ -417,10 +420,27 @@ func c02HandOver(run *core.Run, pfx, what string, r *c02Runner) {
 			if w, ok := core.Reach(core.Q{From: from, Target: core.IsExit, Blocked: isSend}); ok {
 				o.Fail(p.InstrPos(w), "a recovered panic can leave %s without being sent to the waiting select", core.FuncName(f))
 			}
+			if w := pt.missed(isSend); w != nil {
+				o.Fail(p.InstrPos(w), "%s can end with the completion flag unset and nothing sent: a panic whose value recover() reports as nil is not forwarded", core.FuncName(f))
+			}
 			// nothing is sent when there was no panic
-			if w := core.Requires(f, isSend, core.Not(recoveredNil)); w != nil {
+			if w := core.Requires(f, isSend, pt.panicked); w != nil {
 				o.Fail(p.InstrPos(w), "a value is sent to the panic channel although nothing was recovered (the request would panic spuriously)")
 			}
+		}
+	})
+	run.Check(pfx+"/K10/"+what+"-panic-detection-value-independent", "whether the handler panicked is decided in the goroutine's deferred function by a completion flag - a bool local that is false while the handler runs and set only after it returned - and not by the value recover() returns (under this module's go directive recover() is nil for panic(nil), e.g. panic(err) with a nil err: the panic would be stopped but neither forwarded nor followed by close(done), and the request waits out the whole timeout); recover() is called on every path of the panic arm", func(o *core.O) {
+		if !need(o) {
+			return
+		}
+		run.Fn(core.FuncName(r.body))
+		o.Site(len(r.recDefers), core.FuncName(r.body))
+		if len(r.recDefers) == 0 {
+			o.Fail(p.Pos(r.body.Pos()), "the handler goroutine has no deferred recover()")
+			return
+		}
+		for _, d := range r.recDefers {
+			c02CheckCompletionFlag(o, p, c02PanicTestOf(d), r.handlerCalls, "the handler")
 		}
 	})
 	run.Check(pfx+"/K10/"+what+"-panic-chan-buffered", "the panic hand-over channel has capacity >= 1 (the select may already have left through the deadline arm)", func(o *core.O) {
